@@ -12,7 +12,6 @@ XPath 2.0 implementation - part 1 (parser class and symbols)
 """
 import copy
 from abc import ABCMeta
-import locale
 from collections.abc import Callable, MutableMapping
 from urllib.parse import urlparse
 from typing import cast, Any, ClassVar, Optional, Union
@@ -26,7 +25,8 @@ from elementpath.namespaces import XML_NAMESPACE, XSD_NAMESPACE, XPATH_FUNCTIONS
     XQT_ERRORS_NAMESPACE, XSD_NOTATION, XSD_ANY_ATOMIC_TYPE
 from elementpath.namespaces import get_prefixed_name
 from elementpath.datatypes import QName, builtin_atomic_types
-from elementpath.collations import UNICODE_COLLATION_BASE_URI, UNICODE_CODEPOINT_COLLATION
+from elementpath.collations import UNICODE_COLLATION_BASE_URI, UNICODE_CODEPOINT_COLLATION, \
+    get_lc_collate
 from elementpath.xpath_tokens import XPathToken, ProxyToken, XPathFunction, XPathConstructor
 from elementpath.xpath_context import XPathContext, XPathSchemaContext
 from elementpath.sequence_types import is_sequence_type, match_sequence_type
@@ -123,7 +123,7 @@ class XPath2Parser(XPath1Parser):
             # Obtain the current collation locale using setlocale() with `None`.
             # Consider only configured UTF-8 encodings, otherwise keep Unicode
             # Codepoint Collation.
-            _locale = locale.setlocale(locale.LC_COLLATE, None)
+            _locale = get_lc_collate()
             if '.' in _locale:
                 language_code, encoding = _locale.split('.')
                 if encoding.lower() == 'utf-8':
